@@ -5,10 +5,14 @@ import re
 from lib.coqterm import cN, clist, copt, cstr_utf8
 
 ID = "C23"
-QUICK_N = 1500
+QUICK_N = 1000
 THOROUGH_N = 30000
 SHARD = 400
-RULE = ("Exhaustive table (both tiers): 16 listener configurations (incl. instances whose sockets have different ports/hosts; all interfaces v4 / dual stack, 127.0.0.1, ::1, "
+RULE = ("Registry histories (29 fixed + 60 random quick / 600 thorough): 2-5 updates of the mode/server options on ONE real "
+        "Proxyserver with really bound sockets (10 specs on 127.0.0.1-7 port 0, three of them on ports the harness occupies so "
+        "their start fails), mode lists that keep / add / remove / reorder instances; after every update the registry, the update "
+        "result and server_connect probes for every really-listening instance are compared with Model/ServersUpdate.v and judged. "
+        "Exhaustive table (both tiers): 16 listener configurations (incl. instances whose sockets have different ports/hosts; all interfaces v4 / dual stack, 127.0.0.1, ::1, "
         "127.0.0.53, explicit LAN address, scoped link-local, dns and reverse:https servers that listen on both "
         "transports, udp-only servers, several servers, none) x 50 destination spellings (localhost in 6 case/dot "
         "forms, near misses, 127.0.0.0/8 members and neighbours, ::1 in 3 notations, IPv4-mapped, wildcards, the listen "
@@ -64,6 +68,45 @@ HOSTS = ["localhost", "LOCALHOST", "Localhost", "localHost", "localhost.", "Loca
          "0.0.0.0", "::", "0:0:0:0:0:0:0:0", "0",
          "fe80::1%eth0", "fe80::1", "2001:db8::5", "example.com", ""]
 PORTS = [8080, 8081, 53, 443, 1, 65535, 5353, 9090]
+
+# histories of runtime mode updates on a REAL Proxyserver: pool of mode specs (index = spec number in the model).
+# Every spec has its own listen host in 127.0.0.0/8 with port 0 (ephemeral); the BUSY specs point at ports the harness
+# itself occupies, so their start fails with EADDRINUSE.
+UPD_POOL = [("regular", "127.0.0.1", None), ("socks5", "127.0.0.2", None), ("reverse:http://example.com", "127.0.0.3", None),
+            ("reverse:tcp://example.com:25", "127.0.0.4", None), ("upstream:http://example.com:3128", "127.0.0.5", None),
+            ("reverse:udp://example.com:53", "127.0.0.6", None), ("dns", "127.0.0.7", None),
+            ("regular", "127.0.0.1", 0), ("socks5", "127.0.0.1", 1), ("reverse:http://example.com", "127.0.0.1", 2)]
+UPD_GOOD = [0, 1, 2, 3, 4, 5, 6]
+UPD_BUSY = [7, 8, 9]
+
+
+def _upd(steps):
+    return {"k": "updates", "steps": [{"server": on, "modes": list(m)} for on, m in steps]}
+
+
+def _upd_table():
+    out = []
+    for i, k in enumerate(UPD_GOOD):
+        f = UPD_BUSY[i % 3]
+        k2 = UPD_GOOD[(i + 1) % len(UPD_GOOD)]
+        out.append(_upd([(True, [k]), (True, [k, f])]))                      # keep one, add one that cannot bind
+        out.append(_upd([(True, [k]), (True, [f, k])]))
+        out.append(_upd([(True, [k, k2]), (True, [k, f, k2]), (True, [k2])]))
+        out.append(_upd([(True, [k, k2]), (True, [k2, UPD_GOOD[(i + 2) % 7], f]), (False, [k2]), (True, [k2, k])]))
+    out.append(_upd([(True, [7]), (True, [7, 0]), (True, [0])]))
+    return out
+
+
+def _rand_upd(rng):
+    steps = []
+    for _ in range(rng.randint(2, 5)):
+        pool = rng.sample(UPD_GOOD, rng.randint(0, 4)) + (rng.sample(UPD_BUSY, rng.randint(1, 2)) if rng.chance(0.5) else [])
+        if steps and rng.chance(0.7):                        # mostly keep something from the previous mode list
+            pool += [x for x in rng.sample(steps[-1][1], min(len(steps[-1][1]), rng.randint(1, 2))) if x not in pool]
+        rng.shuffle(pool)
+        steps.append((rng.chance(0.9), pool))
+    return _upd(steps)
+
 
 # ------------------------------------------------------------------ specification (Python copy of Model/SelfSpec.v)
 
@@ -141,7 +184,9 @@ def _rand_host(rng, cfg):
 
 
 def gen(rng, n, tier):
-    out = []
+    out = _upd_table()
+    for _ in range(60 if tier == "quick" else 600):
+        out.append(_rand_upd(rng))
     for cfg in CONFIGS:
         lps = sorted({a[1] for _, addrs in cfg for a in addrs}) or [8080]      # EVERY listening port, and one other
         for host in HOSTS + [a[0] for _, addrs in cfg for a in addrs]:
@@ -179,9 +224,97 @@ def setup_impl():
               mode_specs=mode_specs, server_hooks=server_hooks)
 
 
+def _run_updates(case):
+    """The REAL Proxyserver/Servers/ServerInstance stack: sockets are really bound (127.0.0.0/8, ephemeral ports)."""
+    import asyncio
+    import socket
+    from mitmproxy.test import taddons
+
+    async def go():
+        ps = _S["proxyserver"].Proxyserver()
+        busy = []
+        for _ in range(3):
+            b = socket.socket(socket.AF_INET, socket.SOCK_STREAM)
+            b.bind(("127.0.0.1", 0))
+            b.listen()
+            busy.append(b)
+        spec_str = lambda i: f"{UPD_POOL[i][0]}@{UPD_POOL[i][1]}:{0 if UPD_POOL[i][2] is None else busy[UPD_POOL[i][2]].getsockname()[1]}"
+        seen = []                                            # every instance ever registered, in creation order
+        out = []
+        try:
+            with taddons.context(ps) as tctx:
+                for st in case["steps"]:
+                    names = {spec_str(i): i for i in st["modes"]}
+                    tctx.configure(ps, mode=list(names), server=st["server"])
+                    ok = await ps.setup_servers()
+                    reg, created, failed = [], [], []
+                    for mode, inst in ps.servers._instances.items():
+                        if not any(inst is x for x in seen):
+                            seen.append(inst)
+                            created.append(inst)
+                        idx = names[mode.full_spec]
+                        addrs = [[a[0], a[1]] for a in inst.listen_addrs]
+                        reg.append({"spec": idx, "id": [x is inst for x in seen].index(True), "running": bool(inst.is_running),
+                                    "tr": mode.transport_protocol, "addrs": addrs})
+                        if inst in created and not inst.is_running:
+                            failed.append(idx)
+                    # reality, independent of the registry: which instances are listening right now
+                    listening, probes = [], []
+                    for n_, inst in enumerate(seen):
+                        if not inst.is_running:
+                            continue
+                        registered = any(inst is x for x in ps.servers._instances.values())
+                        addrs = [[a[0], a[1]] for a in inst.listen_addrs]
+                        accepts = None
+                        if inst.mode.transport_protocol in ("tcp", "both"):
+                            try:
+                                r, w = await asyncio.wait_for(asyncio.open_connection(addrs[0][0], addrs[0][1]), 2)
+                                w.close()
+                                accepts = True
+                            except Exception:
+                                accepts = False
+                        listening.append({"id": n_, "registered": registered, "addrs": addrs, "accepts": accepts,
+                                          "tr": inst.mode.transport_protocol})
+                        for lh, lp in {(a[0], a[1]) for a in addrs}:
+                            for tr in (["tcp", "udp"] if inst.mode.transport_protocol == "both" else [inst.mode.transport_protocol]):
+                                for host in ("localhost", "127.0.0.1", lh):
+                                    probes.append([host, lp, tr])
+                    probes.append(["localhost", 1, "tcp"])
+                    seen_p, res = set(), []
+                    for host, port, tr in probes:
+                        if (host, port, tr) in seen_p:
+                            continue
+                        seen_p.add((host, port, tr))
+                        server = _S["connection"].Server(address=(host, port), transport_protocol=tr)
+                        client = _S["connection"].Client(peername=("10.9.9.9", 51000), sockname=("10.0.0.1", 8080))
+                        try:
+                            ps.server_connect(_S["server_hooks"].ServerConnectionHookData(server, client))
+                            res.append([host, port, tr, {"error": server.error}])
+                        except Exception as e:
+                            res.append([host, port, tr, {"raised": type(e).__name__}])
+                    out.append({"ok": bool(ok), "reg": reg, "failed": failed, "listening": listening, "probes": res,
+                                "created": [{"spec": r["spec"], "tr": r["tr"], "addrs": r["addrs"]} for r in reg
+                                            if any(seen[r["id"]] is c for c in created)]})
+        finally:
+            for inst in seen:
+                if inst.is_running:
+                    try:
+                        await inst.stop()
+                    except Exception:
+                        pass
+            for b in busy:
+                b.close()
+            await asyncio.sleep(0)
+        return {"updates": out}
+
+    return asyncio.run(go())
+
+
 def run_impl(case):
     if not _S:
         setup_impl()
+    if case.get("k") == "updates":
+        return _run_updates(case)
     ns = _S["ns"]
     ps = _S["proxyserver"].Proxyserver()
     insts = {}
@@ -211,7 +344,26 @@ def _cstr(s):
     return '"' + s.replace('"', '""') + '"'
 
 
+def _csv(tr, addrs):
+    la = clist((f"({cstr_utf8(a[0])}, {cN(a[1])})" for a in addrs), "(bytes * N)")
+    return f"(Build_server {tr.upper()} {la})"
+
+
+def _cobs(o):
+    return "ObsRaised" if "raised" in o else f"(ObsError {copt(o['error'], _cstr, 'string')})"
+
+
 def coq_case(case, obs):
+    if case.get("k") == "updates":
+        hs, im = [], []
+        for st, u in zip(case["steps"], obs["updates"]):
+            table = clist((f"({cN(c['spec'])}, {_csv(c['tr'], c['addrs'])})" for c in u["created"]), "(N * server)")
+            hs.append(f"({'true' if st['server'] else 'false'}, {clist(map(cN, st['modes']), 'N')}, {table}, {clist(map(cN, u['failed']), 'N')})")
+            reg = clist((f"({cN(r['spec'])}, {cN(r['id'])}, {'true' if r['running'] else 'false'}, {_csv(r['tr'], r['addrs'])})"
+                         for r in u["reg"]), "(N * N * bool * server)")
+            pr = clist((f"({cstr_utf8(h)}, {cN(p)}, {t.upper()}, {_cobs(o)})" for h, p, t, o in u["probes"]), "(bytes * N * transport * obs)")
+            im.append(f"({reg}, {'true' if u['ok'] else 'false'}, {pr})")
+        return f"Updates {clist(hs, '(bool * list N * list (N * server) * list N)')} {clist(im)}"
     servers = []
     for mt, addrs in zip(obs["transports"], obs["addrs"]):
         la = clist((f"({cstr_utf8(a[0])}, {cN(a[1])})" for a in addrs), "(bytes * N)")
@@ -220,7 +372,33 @@ def coq_case(case, obs):
     return f"Connect {clist(servers, 'server')} {cstr_utf8(case['host'])} {cN(case['port'])} {case['tr'].upper()} {o}"
 
 
+def _upd_oracle(case, obs):
+    """After EVERY update: every instance that is really listening must be known to Proxyserver.servers, and a connection
+    to each of its addresses (spelled localhost / 127.0.0.1 / as the listen host) must get the destination-unknown error."""
+    v = []
+    hist = " ; ".join(("" if st["server"] else "server=off ") + "[" + ", ".join(f"{UPD_POOL[i][0]}@{UPD_POOL[i][1]}:{'0' if UPD_POOL[i][2] is None else 'BUSY'}" for i in st["modes"]) + "]"
+                      for st in case["steps"])
+    for k, u in enumerate(obs["updates"]):
+        for l in u["listening"]:
+            if not l["registered"]:
+                v.append({"key": "running-listener-not-registered",
+                          "what": f"after update {k + 1} of the mode history {hist}: instance #{l['id']} still listens on {l['addrs']} "
+                                  f"(accepts TCP connections: {l['accepts']}) but is not in Proxyserver.servers"})
+            ports = {(a[0], a[1]) for a in l["addrs"]}
+            for host, port, tr, o in u["probes"]:
+                if "raised" in o:
+                    v.append({"key": "raised", "what": f"server_connect raised {o['raised']} for {host!r}:{port}"})
+                elif o["error"] is None and (tr == l["tr"] or l["tr"] == "both") and any(
+                        port == lp and (host in LITERALS or host == lh) for lh, lp in ports):
+                    v.append({"key": "running-listener-not-guarded",
+                              "what": f"after update {k + 1} of the mode history {hist}: mitmproxy listens on {l['addrs']} ({l['tr']}) but a "
+                                      f"connection to {host!r}:{port}/{tr} gets no destination-unknown error"})
+    return v[:3]
+
+
 def oracle(case, obs):
+    if case.get("k") == "updates":
+        return _upd_oracle(case, obs)
     if "raised" in obs:
         return [{"key": "raised", "what": f"server_connect raised {obs['raised']} for destination {case['host']!r}:{case['port']}"}]
     host, port, tr = case["host"], case["port"], case["tr"]
@@ -243,10 +421,32 @@ def oracle(case, obs):
 
 
 def nontrivial(case, obs):
+    if case.get("k") == "updates":
+        return any(u["listening"] for u in obs["updates"])
     return obs.get("error") is not None or any(a[1] == case["port"] for addrs in obs["addrs"] for a in addrs)
 
 
 def classify(case, obs):
+    if case.get("k") == "updates":
+        tags = ["updates", f"updates-len={len(case['steps'])}"]
+        prev = set()
+        for st, u in zip(case["steps"], obs["updates"]):
+            cur = set(st["modes"]) if st["server"] else set()
+            kept, added = prev & cur, cur - prev
+            if u["failed"]:
+                tags.append("upd-start-failed")
+                if kept:
+                    tags.append("upd-kept-while-another-start-failed")
+            if kept and added:
+                tags.append("upd-keep+add")
+            if prev - cur:
+                tags.append("upd-remove")
+            if not st["server"]:
+                tags.append("upd-server-off")
+            if any(l["tr"] != "tcp" for l in u["listening"]):
+                tags.append("upd-udp-or-both-listener")
+            prev = cur
+        return sorted(set(tags))
     host = case["host"]
     fam = "literal" if host in LITERALS else family(host) or ("listen-host" if any(a[0] == host for ad in obs["addrs"] for a in ad) else "other")
     den = denoting_listeners(obs, host, case["port"], case["tr"]) if "raised" not in obs else []
